@@ -8,6 +8,7 @@ import (
 	"math/rand"
 	"os"
 	"sort"
+	"time"
 )
 
 // Machine runs operation tokens against the implementation.
@@ -39,12 +40,30 @@ type RunResult struct {
 // down (fatal out-of-memory, stack exhaustion, deadlock) is still reported with its replay.
 var crashFile string
 
+// caseLimit: wall-clock limit for one history (0: none)
+var caseLimit time.Duration
+
 func RunImpl(m Machine, c *Case) *RunResult {
 	if crashFile != "" {
 		b, _ := json.Marshal(Finding{Kind: "crash", Sig: "process-aborted", Machine: m.ID(),
 			Desc:    "the implementation aborted the whole process while running this history",
 			ImplOps: TL(c.Ops...).String(), OpsN: len(c.Ops)})
 		os.WriteFile(crashFile, b, 0644)
+	}
+	if caseLimit > 0 && crashFile != "" {
+		// a history that does not come back (an eviction loop that never ends, a lock never released)
+		// cannot be interrupted from inside the process: after caseLimit the process exits with
+		// status 3 and the history in crashFile is the replay
+		ops := TL(c.Ops...).String()
+		id := m.ID()
+		t := time.AfterFunc(caseLimit, func() {
+			b, _ := json.Marshal(Finding{Kind: "crash", Sig: "process-aborted", Machine: id,
+				Desc:    fmt.Sprintf("the implementation did not finish this history within %v", caseLimit),
+				ImplOps: ops, OpsN: len(c.Ops)})
+			os.WriteFile(crashFile, b, 0644)
+			os.Exit(3)
+		})
+		defer t.Stop()
 	}
 	m.Reset()
 	r := &RunResult{Orig: c.Ops}
@@ -119,7 +138,8 @@ type Stats struct {
 	Notes        map[string]int `json:"notes"`
 	Samples      []string       `json:"samples"`
 	seen         map[string]bool
-	ModelCompare int `json:"model_compared_ops"`
+	ModelCompare int    `json:"model_compared_ops"`
+	Truncated    string `json:"truncated,omitempty"` // set when the time budget ended the suite early
 }
 
 func NewStats() *Stats {
@@ -325,6 +345,7 @@ type Gen struct {
 	R     *rand.Rand
 	Small bool // keep states small (all-prefix sweeps are quadratic in the image size)
 	Tweak int  // 0 none; k>0: change the k-th constructor parameter (used to build near-twins)
+	Big   bool // HyperLogLog (in memory only): rarely draw 2^16 / 2^17 registers (32-bit products of the register count wrap there)
 	Wide  bool // Count-Min: rarely draw rows wider than 4096 cells (Redis script chunking / unpack limits)
 }
 
@@ -395,6 +416,15 @@ func sortedKeys(m map[string]int) []string {
 	}
 	sort.Strings(ks)
 	return ks
+}
+
+// bigRegs wraps a generator so that HyperLogLog register counts rarely reach 2^16 and 2^17.
+func bigRegs(gen func(g *Gen, tier string) *Case) func(g *Gen, tier string) *Case {
+	return func(g *Gen, tier string) *Case {
+		g.Big = true
+		defer func() { g.Big = false }()
+		return gen(g, tier)
+	}
 }
 
 // wide wraps a generator so that Count-Min dimensions rarely include rows wider than 4096 cells.
